@@ -372,6 +372,89 @@ impl Ctx {
         );
     }
 
+    /// `n` identical calls on one object, every one compared with the reference.
+    fn do_soak(&mut self, op: usize, slot: usize, method: Method, input: &str, repl: &str, n: usize) {
+        let me = self.me();
+        let obj = match self.get_obj(slot) {
+            Some(o) => o,
+            None => return self.skip(op, "no object in slot"),
+        };
+        let req = Request {
+            key: obj.key.clone(),
+            method,
+            input: input.to_string(),
+            repl: repl.to_string(),
+        };
+        self.log(format!(
+            "t={} T{} invoke #{} obj{} soak x{} {}",
+            now(),
+            me,
+            op,
+            obj.id,
+            n,
+            req.show()
+        ));
+        let refres = self.reference(&req);
+        self.begin_call(Some(&obj));
+        let mut first_bad: Option<(usize, String)> = None;
+        let mut first_sig: Option<u64> = None;
+        let mut sig_changes = 0u64;
+        let mut done = 0usize;
+        for k in 0..n {
+            let (r, _steps) = exec::guarded(0, || match method {
+                Method::IsMatch => exec::is_match(&obj.re.0, input),
+                Method::ReplaceAll => exec::replace_all(&obj.re.0, input, repl),
+                _ => unreachable!("soak is for simple calls"),
+            });
+            done += 1;
+            let got = match r {
+                Ok(s) => s,
+                Err(a) => a.render(),
+            };
+            let sig = hook::last_sig();
+            match first_sig {
+                None => first_sig = Some(sig),
+                Some(f) if f != sig => sig_changes += 1,
+                _ => {}
+            }
+            if got != refres.open && !refres.unstable {
+                first_bad = Some((k, got));
+                break;
+            }
+        }
+        self.end_call();
+        let t = now();
+        let mut w = wlock(&self.world);
+        w.rec.compared += done as u64;
+        w.rec.soak_calls += done as u64;
+        if sig_changes > 0 {
+            w.rec.path_impure += sig_changes;
+            if w.rec.path_impure_examples.len() < 3 {
+                w.rec
+                    .path_impure_examples
+                    .push(format!("{} (within a soak of {} identical calls)", req.show(), n));
+            }
+        }
+        let verdict = match &first_bad {
+            None => format!("all {} equal ref={} ok", done, refres.open),
+            Some((k, got)) => {
+                w.rec.violations.push(Violation {
+                    class: "result-mismatch".into(),
+                    thread: me,
+                    op,
+                    poll: 0,
+                    t,
+                    request: format!("{} (call {} of {} identical calls)", req.show(), k + 1, n),
+                    expected: refres.open.clone(),
+                    got: got.clone(),
+                });
+                format!("call {} returned {} ref={} MISMATCH", k + 1, got, refres.open)
+            }
+        };
+        drop(w);
+        self.log(format!("t={} T{} return #{} soak {}", t, me, op, verdict));
+    }
+
     fn drop_iter(&mut self, it: usize, abandoned: bool) {
         if let Some(slot) = self.iters.get_mut(it).and_then(|s| s.take()) {
             let mut w = wlock(&self.world);
@@ -620,6 +703,13 @@ impl Ctx {
                     std::mem::forget(slot);
                 }
             }
+            Op::Soak {
+                slot,
+                method,
+                input,
+                repl,
+                n,
+            } => self.do_soak(i, *slot, *method, input, repl, *n),
             Op::DebugFmt { slot } => {
                 let obj = self.get_obj(*slot);
                 self.log(format!(
@@ -772,6 +862,7 @@ pub fn run(
         if want_trace {
             g.trace = Some(Vec::new());
         }
+        g.exit_via_driver = !use_pool;
         let line = format!(
             "run seed={} flavor={} cfg{{threads={} slots={} policy={} crashes={} mask={:#x}:{:#x} hashstream={:#x} setup_ops={} explicit_schedule={} caller_threads={}}}",
             spec.seed,
@@ -789,7 +880,7 @@ pub fn run(
         );
         g.logline(&line);
     }
-    let mut handles = Vec::new();
+    let mut handles: Vec<Option<std::thread::JoinHandle<()>>> = Vec::new();
     for sim in &threads {
         let (sim_c, spec_c, world_c, refc_c) =
             (sim.clone(), spec.clone(), world.clone(), refc.clone());
@@ -830,18 +921,22 @@ pub fn run(
                 .name(format!("sim-T{}", sim.idx))
                 .spawn(body)
                 .expect("spawn simulated thread");
-            handles.push(h);
+            handles.push(Some(h));
         }
     }
     sched::kick_off(&shared);
-    let in_time = sched::drive(&shared, std::time::Duration::from_secs(20));
+    let in_time = sched::drive(&shared, std::time::Duration::from_secs(20), |i| {
+        if let Some(h) = handles.get_mut(i).and_then(|h| h.take()) {
+            let _ = h.join();
+        }
+    });
     let (deadlock, harness_err) = {
         let g = sched::lock(&shared.m);
         (g.deadlock, wlock(&world).rec.harness_error.is_some())
     };
     let poisoned = !in_time || deadlock || harness_err;
     if !poisoned {
-        for h in handles {
+        for h in handles.into_iter().flatten() {
             let _ = h.join();
         }
         if use_pool {
@@ -882,6 +977,8 @@ pub fn run(
         rec.switches = g.switches;
         rec.intra_call_preemptions = g.intra;
         rec.stalled = g.stalls;
+        rec.thread_exits_joined = g.thread_exits_joined;
+        rec.late_starts = g.late_starts;
         rec.ext_blocked = g.ext_blocked;
         rec.nondet_window = g.nondet_window;
         rec.deadlock = g.deadlock;
